@@ -582,6 +582,9 @@ class WebSocket:
             self.send(struct.pack("!H", status) + reason, ABNF.OPCODE_CLOSE)
             while timeout is None or time.time() - start_time < timeout:
                 try:
+                    if timeout is not None:
+                        # each read gets what is left of the timeout, not a new one
+                        self.sock.settimeout(timeout - (time.time() - start_time))
                     frame = self.recv_frame()
                     if frame.opcode != ABNF.OPCODE_CLOSE:
                         continue
